@@ -138,6 +138,20 @@ def setter_row(cls, attr, fn, vec_defaults, sc_defaults):
     calls = validator_calls(fn)
     # handedness-like membership test
     if not calls:
+        # `if not isinstance(val, str) or val not in {..}: raise MagpylibBadUserInput` ; self._<attr> = val
+        if (len(body) == 2 and isinstance(body[0], ast.If) and not body[0].orelse and len(body[0].body) == 1
+                and is_raise_bad(body[0].body[0]) and isinstance(body[0].test, ast.BoolOp)
+                and isinstance(body[0].test.op, ast.Or) and len(body[0].test.values) == 2
+                and ast.unparse(body[0].test.values[0]) == f"not isinstance({val}, str)"
+                and isinstance(body[0].test.values[1], ast.Compare) and len(body[0].test.values[1].ops) == 1
+                and isinstance(body[0].test.values[1].ops[0], ast.NotIn)
+                and is_name(body[0].test.values[1].left, val)
+                and isinstance(body[1], ast.Assign) and len(body[1].targets) == 1
+                and self_attr(body[1].targets[0], "_" + attr) and is_name(body[1].value, val)):
+            cont = body[0].test.values[1].comparators[0]
+            if isinstance(cont, (ast.Set, ast.Tuple, ast.List)) and all(
+                    isinstance(x, ast.Constant) and isinstance(x.value, str) for x in cont.elts):
+                return f"VMemberStr {clist([cstr(x.value) for x in cont.elts])}", False
         if (len(body) == 2 and isinstance(body[0], ast.If) and not body[0].orelse and len(body[0].body) == 1
                 and is_raise_bad(body[0].body[0]) and isinstance(body[0].test, ast.Compare)
                 and len(body[0].test.ops) == 1 and isinstance(body[0].test.ops[0], ast.NotIn)
